@@ -350,8 +350,15 @@ def _case_tree(run, rng, quick, case_seed, icase):
         _dense_checks(case, "canonicalise", ctx, c, psi, rng, TOL_FACT)
         _check_canonical(case, "canonicalise", ctx, c)
         if n_nodes > 1:
-            if rng.random() < 0.5:
+            r3 = rng.random()
+            if r3 < 0.33:
                 fn = lambda: c.copy().compress(temp_m_trunc=1000, ret_s=True)
+            elif r3 < 0.66:
+                # per-node list of limits (documented: "int or list of int"), equal to the present bond dimensions: lossless
+                lims = [int(x) for x in c.bond_dims]
+                lim_arg = lims if rng.random() < 0.5 else np.array(lims)
+                run.count("compress:per-node-limit-list")
+                fn = lambda: c.copy().compress(temp_m_trunc=lim_arg, ret_s=True)
             else:
                 def fn():
                     x = c.copy()
